@@ -74,6 +74,9 @@ typedef struct {
   // For #include_next: index of the include path after the one
   // in which this file was found
   int include_next_idx;
+
+  // Nesting depth of #include (0 for the main file)
+  int include_depth;
 } File;
 
 // Token type
